@@ -353,6 +353,61 @@ def run(ctx):
     T.SYMKIND.clear()
     ctx.require(n_aug >= 2, 'add_signal: in-place accumulations of the smearing loop not found (rule would be vacuous)')
 
+    # ---- D4 spacing of the Doppler-smearing copies: the n copies of a time sample are centred Δ/n apart, Δ the change of the
+    # path centre over that sample (so that they cover [path(t_i), path(t_{i+1})) without counting the end point twice).
+    # Stated on whatever evenly spaced family of centres the code builds: a loop-carried centre advanced by a fixed increment,
+    # or a tabulated np.linspace family.
+    ctx.clause = 'D4'
+    T.SYMKIND.clear()
+    T.SYMKIND.update({'path': 'callable', 't_profile': 'callable'})
+    r4, I4 = ctx.run(fi, args={'integrate_path': FALSE, 'integrate_t_profile': FALSE, 'integrate_f_profile': FALSE,
+                               'doppler_smearing': TRUE, 'bounding_f_range': NONE, 'bp_profile': NONE}, no_inline=(FR + 'get_index',))
+    T.SYMKIND.clear()
+    nsub = sym('smearing_subsamples')
+
+    def untiled(t):
+        return T.subst(t, lambda a: a.args[1][0] if (a.kind == 'call' and a.args[0] in ('tile_cols', 'tile_rows') and a.args[1]) else None)
+    steps = []
+    for e in I4.events:
+        if e.kind == 'store' and e.data.get('target') == 'name' and e.loops and e.owner == fi.short \
+                and any(e.data['name'] in l.get('carried', ()) for l in e.loops):
+            v = e.data['value']
+            lv = [a for a in v.atoms() if a.kind == 'loopvar']
+            if len(lv) == 1 and any(x.kind == 'call' and x.args[0] == 'apply' and x.args[1] and x.args[1][0].key == sym('path').key
+                                    for x in T.all_atoms(v).values()):
+                inc = untiled(v - Term.of(lv[0]))
+                # (a centre frequency, not the accumulated signal: nothing but the path is applied in it)
+                if not any(x.kind == 'call' and x.args[0] == 'apply' and x.args[1] and x.args[1][0].key != sym('path').key
+                           for x in T.all_atoms(inc).values()):
+                    steps.append((e, inc))
+    for e in I4.events:
+        vals = [e.data.get('value')] if e.kind == 'store' else []
+        for v in vals:
+            if v is None:
+                continue
+            for a in T.all_atoms(v).values():
+                if a.kind == 'seq' and a.args[2].key == nsub.key and any(
+                        x.kind == 'call' and x.args[0] == 'apply' and x.args[1] and x.args[1][0].key == sym('path').key
+                        for x in T.all_atoms(a.args[0]).values()):
+                    if all(a.args[1].key != s_.key for _, s_ in steps):
+                        steps.append((e, untiled(a.args[1])))
+    if not steps:
+        ctx.ob('FORMULA', 'Doppler smearing: the family of smeared centres was not recognised (neither a centre advanced by a fixed '
+               'increment nor a tabulated evenly spaced family)', fi, None, {}, node=fi.node, construct='smearing centres')
+    for e, st_ in steps:
+        # Δ as the code has it: np.diff(P) or P[1:] - P[:-1] for the path evaluated on the extended time axis
+        P = [x for x in T.all_atoms(st_).values() if x.kind == 'call' and x.args[0] == 'apply' and x.args[1]
+             and x.args[1][0].key == sym('path').key]
+        ok_ = False
+        if P:
+            Pt = Term.of(P[0])
+            d1 = T.mk_call('diff', [Pt])
+            d2 = T.mk_sub(Pt, T.mk_slice(Term.num(1), NONE, NONE)) - T.mk_sub(Pt, T.mk_slice(NONE, Term.num(-1), NONE))
+            ok_ = any(T.compare(st_ * nsub, d)[0] == T.EQUAL for d in (d1, d2))
+        ctx.ob('FORMULA', 'Doppler smearing: successive copies of a time sample are centred (path(t_{i+1}) - path(t_i)) / '
+               'smearing_subsamples apart', fi, ok_, {'spacing': pretty(st_)[:200]}, node=e.node,
+               construct=e.text()[:80] + ' [copy spacing]')
+
     # ---- closed-form families (the shipped path / profile functions)
     ctx.clause = 'D6'
     for short, (lam, argn) in REF_FUNCS.items():
